@@ -295,7 +295,7 @@ int World::on_accept(KFd &k, void *addr_v, unsigned *addrlen) {
 	Client &cl = clients[ci];
 	KFd &s = g_kernel.alloc_fd(FD_STREAM);
 	KFd &lk = *g_kernel.get(k.fd);  // alloc may have moved the vector
-	last_accepted = ci;
+	last_accepted = ci; model_version++;
 	s.client = ci; s.sock_family = lk.sock_family; s.cfg_fail_at = cl.cfg_fail_at; s.cfg_fail_errno = cl.cfg_fail_errno; s.cfg_calls = 0; s.epoll_add_errno = cl.epoll_add_errno;
 	if (cl.epoll_add_errno) probe("fault:connection_cannot_be_registered");
 	if (cl.cfg_fail_at) probe("fault:socket_configuration_call_fails");
@@ -413,6 +413,7 @@ long World::on_writev(KFd &k, const struct iovec *iov, int cnt) {
 }
 
 void World::on_close(KFd &k) {
+	model_version++;
 	dbg("close fd=%d kind=%d client=%d", k.fd, k.kind, k.client);
 	trace.tag("close"); trace.u64(k.fd); trace.u64(k.kind);
 	if (k.kind == FD_STREAM) {
@@ -429,7 +430,7 @@ void World::on_close(KFd &k) {
 			else if (mode == "exact" && !cl->no_expect) { if (!match_close(*cl)) {
 				violation("C02", "unexpected-close", "daemon closed connection c" + std::to_string(cl->idx) + " (" + cl->transport + ") although nothing it sent or suffered justifies that"); } }
 			else cl->expq.clear();
-			if (shadow_active && !sigterm_sent) { flush_pending(); Input in; in.t = Input::GONE; in.c = cl->idx; in.why = "released by the daemon"; shadow_log(in); }
+			if (shadow_active && !sigterm_sent) { flush_pending(); Input in; in.t = Input::GONE; in.c = cl->idx; in.why = "released by the daemon"; shadow_log(in); shadow_settle_unexplained(false); }
 			cl->daemon_closed = true;
 		}
 	} else if (k.kind == FD_TIMER) {
@@ -442,6 +443,7 @@ void World::on_close(KFd &k) {
 }
 
 void World::on_timer_set(KFd &k, uint64_t ns) {
+	model_version++;
 	dbg("settime fd=%d ns=%llu", k.fd, (unsigned long long)ns);
 	trace.tag("settime"); trace.u64(k.fd); trace.u64(ns);
 	if (ns == 0) { k.armed = false; k.expirations = 0; probe("timer_disarmed"); return; }
@@ -455,6 +457,7 @@ void World::on_timer_set(KFd &k, uint64_t ns) {
 }
 
 void World::on_timer_create_failed() {
+	model_version++;
 	// the request whose deadline timer cannot be created is abandoned by the daemon: it must not be taken for the owner of the next timer
 	trace.tag("timer-create-failed");
 	if (mode != "exact") return;
@@ -473,6 +476,7 @@ void World::on_log(int pri, const std::string &line) {
 }
 
 void World::on_alloc_fail(uint64_t index) {
+	model_version++;
 	trace.tag("allocfail"); trace.u64(index);
 	fault_turn = (long)res.st.batches; faults_fired++;
 	if (index) probe("fault:alloc_failed");
